@@ -320,7 +320,8 @@ def make_source(fv):
         P["next_h"] = {}
 
     # ---------------- variables
-    states = [("s", "D(3)"), ("w", {"lin": "Lin(1, 5, 5)", "log": "Log(0.8, 5, 5)", "extrap": "Lin(1, 5, 5)", "disc": "D(4)"}[fv["wgrid"]])]
+    # "fine" (explicit members only): 41 grid points
+    states = [("s", "D(3)"), ("w", {"lin": "Lin(1, 5, 5)", "log": "Log(0.8, 5, 5)", "extrap": "Lin(1, 5, 5)", "disc": "D(4)", "fine": "Lin(1, 5, 41)"}[fv["wgrid"]])]
     if has_h:
         states.append(("h", "D(3)" if fv["h"] == "h3" else "D(2)"))  # h before g: declaration order != alphabetical order
     if has_g:
